@@ -82,19 +82,22 @@ def check(ctx):
     d, arms = ms[0]
     back_d = d
     ms_back = ms[0]
-    ii = [l for l in lev.locals_named("i")]
-    jj = [l for l in lev.locals_named("j")]
-    # the back-track cursors are the multi-definition locals named i / j that are decremented
-    def cursor(cands):
-        for l in cands:
-            if any(rv[0] == "bin" and rv[1].startswith("Sub") and operand_term(lev, rv[2])[0] in ("path", "local")
-                   and operand_term(lev, rv[2])[1] == l for _b, _s, _p, rv, _l, _m in lev.assigns()):
-                if len([x for x in lev.defs(l) if x[0] == "assign"]) > 1:
-                    return l
-        return None
-    I, J = cursor(ii), cursor(jj)
+    # the back-track cursors: the two variables that index the operation matrix whose element the match inspects
+    # (`match &ops[i][j]`), identified structurally - local names play no role
+    I = J = None
+    for st in lev.stmts(d):
+        if st[0] == "a" and st[2][0] == "disc":
+            root = st[2][1][0]
+            t = _sh_place(lev, [root]) if not lev.local_name(root) else None
+            if t is None:
+                dd = single_def(lev, root)
+                t = _sh(lev, ["c", dd[3][-1]]) if dd and dd[0] == "assign" and dd[3][0] in ("ref", "ptr") else ("unknown",)
+            if t[0] == "call":
+                cell = _cell_of_index_call(lev, t[1])
+                if cell and cell[1] and cell[2] and cell[1][0] == "v" and cell[2][0] == "v":
+                    I, J = cell[1][1], cell[2][1]
     if I is None or J is None:
-        raise AnchorMissing("levenshtein_distance: cannot identify the back-track cursors i / j")
+        raise AnchorMissing("levenshtein_distance: cannot identify the back-track cursors (the indices of the matched matrix element)")
     for v in variants:
         blocks = arm_blocks(lev, d, arms, v, variants.index(v))
         got = (delta(lev, blocks, I, "Sub"), delta(lev, blocks, J, "Sub"))
@@ -109,10 +112,26 @@ def check(ctx):
     if len(ms) != 1:
         raise AnchorMissing("adjust_token_stream: expected one complete match on EditOp, found %d" % len(ms))
     d, arms = ms[0]
-    S = adj.locals_named("stream_idx")
-    E = adj.locals_named("exp_idx")
+    # stream cursor: the position argument of the token-stream edits; expected cursor: the other counter advanced in the arms
+    S = set()
+    for c in adj.calls():
+        if (c.path or "").startswith(ll.TS) and c.path.split("::")[-1] in ("replace_token_type_at", "insert_token_at",
+                                                                          "remove_token_at") and len(c.args) > 1:
+            t = _sh(adj, c.args[1])
+            if t[0] == "var":
+                S.add(t[2])
+    allarm = set()
+    for v in variants:
+        allarm |= arm_blocks(adj, d, arms, v, variants.index(v))
+    E = set()
+    for bi, si, p, rv, line, mac in adj.assigns():
+        if bi in allarm and rv[0] == "bin" and rv[1].startswith("Add") and rv[3][0] == "k" and rv[3][2] == 1:
+            t = _sh(adj, rv[2])
+            if t[0] == "var" and t[2] not in S:
+                E.add(t[2])
+    S, E = sorted(S), sorted(E)
     if len(S) != 1 or len(E) != 1:
-        raise AnchorMissing("adjust_token_stream: cannot identify stream_idx / exp_idx")
+        raise AnchorMissing("adjust_token_stream: cannot identify the stream cursor / expected cursor (%s / %s)" % (S, E))
     for v in variants:
         blocks = arm_blocks(adj, d, arms, v, variants.index(v))
         ds, de = delta(adj, blocks, S[0], "Add"), delta(adj, blocks, E[0], "Add")
@@ -190,18 +209,28 @@ def _sh(body, op, depth=10):
 
 
 def _idx(body, t, I=None, J=None):
-    """('i'|'j'|'0', offset) for an index term: the loop variable, the loop variable minus 1, or the constant 0"""
+    """('v', local, offset) for an index term that is a variable or a variable minus 1, ('0', 0) for the constant 0"""
     if t[0] == "const" and t[1] == 0:
         return ("0", 0)
-    if t[0] == "var" and t[1] in ("i", "j"):
-        return (t[1], 0)
-    if t[0] == "bin" and t[1].startswith("Sub") and t[2][0] == "var" and t[2][1] in ("i", "j") and t[3] == ("const", 1):
-        return (t[2][1], 1)
+    if t[0] == "var":
+        return ("v", t[2], 0)
+    if t[0] == "bin" and t[1].startswith("Sub") and t[2][0] == "var" and t[3] == ("const", 1):
+        return ("v", t[2][2], 1)
+    return None
+
+
+def _matrix_kind(body, local):
+    """'d' for the cost matrix (Vec<Vec<usize>>), 'ops' for the operation matrix (Vec<Vec<EditOp>>), by type"""
+    ty = body.local_ty(local).replace("std::vec::", "").replace("&", "").replace("mut ", "").strip()
+    if ty.startswith("Vec<Vec<") and "EditOp" in ty:
+        return "ops"
+    if ty.startswith("Vec<Vec<usize"):
+        return "d"
     return None
 
 
 def _cell_of_index_call(body, c, I=None, J=None):
-    """(matrix local name, idx1, idx2) for m[idx1][idx2] given the *inner* Index/IndexMut call"""
+    """(matrix kind 'd'|'ops', idx1, idx2) for m[idx1][idx2] given the *inner* Index/IndexMut call"""
     if (c.path or "").split("::")[-1] not in ("index", "index_mut") or len(c.args) < 2:
         return None
     outer = _sh(body, c.args[0])
@@ -211,7 +240,10 @@ def _cell_of_index_call(body, c, I=None, J=None):
     m = _sh(body, oc.args[0])
     if m[0] != "var":
         return None
-    return (m[1], _idx(body, _sh(body, oc.args[1])), _idx(body, _sh(body, c.args[1])))
+    kind = _matrix_kind(body, m[2])
+    if kind is None:
+        return None
+    return (kind, _idx(body, _sh(body, oc.args[1])), _idx(body, _sh(body, c.args[1])))
 
 
 def _cost_cell_sh(body, t):
@@ -244,16 +276,47 @@ def fill_rules(ctx, facts, lev):
     inside the matrix).  The back-track (R31.1) decrements i for Delete, j for Insert, both for Replace/Keep - a fill that
     records another operation for a predecessor makes the script walk to a cell the cost did not come from."""
     dom = cfg.Dom(lev)
-    MIN = [l for l in lev.locals_named("min")]
-    OP = [l for l in lev.locals_named("op") if not lev.local_ty(l).startswith("&")]
+    # the target cell of the fill loop d[R][C] (both indices plain variables) defines the row / column variables
+    R = C = None
+    for bi, si, p, rv, line, mac in lev.assigns():
+        if len(p) == 2 and p[1] == "*" and rv[0] == "use":
+            sd = single_def(lev, p[0])
+            cell = _cell_of_index_call(lev, sd[3]) if sd and sd[0] == "call" else None
+            if cell and cell[0] == "d" and cell[1] and cell[2] and cell[1][0] == "v" and cell[2][0] == "v" \
+                    and cell[1][2] == 0 and cell[2][2] == 0:
+                R, C = cell[1][1], cell[2][1]
+    if R is None:
+        raise AnchorMissing("levenshtein_distance: no store d[r][c] = .. with two index variables found (the fill loop)")
+
+    def rel(ix):
+        """index component relative to the fill variables: ('i'|'j', offset) | ('0', 0) | None"""
+        if ix is None:
+            return None
+        if ix[0] == "0":
+            return ("0", 0)
+        return ("i", ix[2]) if ix[1] == R else ("j", ix[2]) if ix[1] == C else ("?", ix[2])
+
+    def relcell(c):
+        if not c:
+            return None
+        return (c[0], rel(c[1]), rel(c[2])) + tuple(c[3:])
+
+    # the running minimum: the usize variable all of whose assignments are cost cells of d; the recorded operation: the
+    # EditOp-typed variable with several assignments
+    MIN = [l for l in range(len(lev.locals)) if lev.local_name(l) and lev.local_ty(l) == "usize" and
+           len([x for x in lev.defs(l) if x[0] == "assign"]) >= 2 and
+           all(_cost_cell(lev, x[3]) is not None for x in lev.defs(l) if x[0] == "assign")]
+    OP = [l for l in range(len(lev.locals)) if lev.local_name(l) and lev.local_ty(l).endswith("EditOp") and
+          not lev.local_ty(l).startswith("&") and len([x for x in lev.defs(l) if x[0] == "assign"]) >= 2]
     if len(MIN) != 1 or len(OP) != 1:
-        raise AnchorMissing("levenshtein_distance: cannot identify the locals min / op of the fill loop")
+        raise AnchorMissing("levenshtein_distance: cannot identify the running minimum / recorded operation of the fill loop "
+                            "(%s / %s)" % (MIN, OP))
     MIN, OP = MIN[0], OP[0]
     I = J = None
     mins = []
     for d in lev.defs(MIN):
         if d[0] == "assign":
-            mins.append((d[1], _cost_cell(lev, d[3]), lev.line_of_block(d[1])))
+            mins.append((d[1], relcell(_cost_cell(lev, d[3])), lev.line_of_block(d[1])))
     nops = 0
     for d in lev.defs(OP):
         if d[0] != "assign":
@@ -295,10 +358,10 @@ def fill_rules(ctx, facts, lev):
             continue
         cand = None
         for s in (tt[2], tt[3]):
-            c = _cost_cell_sh(lev, s)
+            c = relcell(_cost_cell_sh(lev, s))
             if c and c[0] == "d":
                 cand = c
-        if cand is None or not any(s[0] == "var" and s[1] == "min" for s in (tt[2], tt[3])):
+        if cand is None or not any(s[0] == "var" and s[2] == MIN for s in (tt[2], tt[3])):
             continue
         tests.append((t, cand))
     ntests = len(tests)
@@ -318,7 +381,7 @@ def fill_rules(ctx, facts, lev):
             sd = single_def(lev, p[0])
             if not sd or sd[0] != "call":
                 continue
-            cell = _cell_of_index_call(lev, sd[3], I, J)
+            cell = relcell(_cell_of_index_call(lev, sd[3], I, J))
             if not cell or cell[0] != "ops":
                 continue
             src = raw_operand_place(lev, rv[1])
@@ -329,10 +392,11 @@ def fill_rules(ctx, facts, lev):
             stores.append((cell, var, line, bi))
     for cell, var, line, bi in stores:
         _m, a, b2 = cell
-        if a == ("i", 0) and b2 == ("0", 0):
+        isvar = lambda x: x is not None and x[0] in ("i", "j", "?") and x[1] == 0
+        if isvar(a) and b2 == ("0", 0):
             ctx.check(var == "Delete", "R31.2", "fill|boundary-column", "ops[i][0] = Delete (only i can be decremented)",
                       "ops[i][0] is %s: in column 0 only Delete stays inside the matrix" % var, where(lev, line))
-        elif a == ("0", 0) and b2 == ("j", 0):
+        elif a == ("0", 0) and isvar(b2):
             ctx.check(var == "Insert", "R31.2", "fill|boundary-row", "ops[0][j] = Insert (only j can be decremented)",
                       "ops[0][j] is %s: in row 0 only Insert stays inside the matrix" % var, where(lev, line))
         elif var == "Keep":
@@ -341,9 +405,9 @@ def fill_rules(ctx, facts, lev):
             for bi2, si2, p2, rv2, line2, mac2 in lev.assigns():
                 if len(p2) == 2 and p2[1] == "*" and rv2[0] == "use" and (dom.dominates(bi2, bi) or dom.dominates(bi, bi2)):
                     sd = single_def(lev, p2[0])
-                    c2 = _cell_of_index_call(lev, sd[3], I, J) if sd and sd[0] == "call" else None
+                    c2 = relcell(_cell_of_index_call(lev, sd[3], I, J)) if sd and sd[0] == "call" else None
                     if c2 and c2[0] == "d" and c2[1] == ("i", 0) and c2[2] == ("j", 0):
-                        val = _cost_cell(lev, rv2[1])
+                        val = relcell(_cost_cell(lev, rv2[1]))
                         if val == ("d", ("i", 1), ("j", 1), 0) and abs(line2 - line) <= 2:
                             okk = True
             ctx.check(okk, "R31.2", "fill|Keep", "Keep is recorded together with d[i][j] = d[i-1][j-1]",
